@@ -108,4 +108,140 @@ theorem valueRoundtripStatement_false : ¬ valueRoundtripStatement := by
   rw [semicolon_counterexample.2] at this
   exact absurd this (by decide)
 
+/-! ## 2. subsections and section headers -/
+
+/-- **Subsection escape round trip**, for every byte string the writer accepts (everything without LF
+and NUL — quotes, backslashes, dots, spaces, brackets, comment characters included). -/
+theorem subsection_roundtrip (s e : Bytes) (h : escapeSubsection s = .ok e) : unescapeSubsection e = s := by
+  obtain ⟨he, _, _⟩ := escapeSubsection_ok h
+  rw [he, unescape_escaped]
+
+/-- the writer refuses exactly LF and NUL -/
+theorem escapeSubsection_total (s : Bytes) (h10 : ¬ 10 ∈ s) (h0 : ¬ 0 ∈ s) : ∃ e, escapeSubsection s = .ok e := by
+  unfold escapeSubsection
+  split
+  · rename_i hf
+    simp only [List.any_eq_true, Gen.Config.subsectionForbidden] at hf
+    obtain ⟨c, hc, hcf⟩ := hf
+    simp at hcf
+    rcases hcf with rfl | rfl
+    · exact (h10 hc).elim
+    · exact (h0 hc).elim
+  · exact ⟨_, rfl⟩
+
+example : escapeSubsection [97, 34, 92, 46, 32, 93, 35, 59, 34] = .ok [97, 92, 34, 92, 92, 46, 32, 93, 35, 59, 92, 34] := by
+  decide
+
+/-- The statement the property makes about section headers, in full: whatever header the writer emits
+is read back as the same section.  FALSE for the code as it stands (`header_counterexample`). -/
+def headerRoundtripStatement : Prop :=
+  ∀ (sec : Section) (hdr : Bytes), checkSectionName sec.1 = true → (sec.2 = none → ¬ 46 ∈ sec.1) →
+    writeHeader sec = .ok hdr → parseHeader hdr = .ok (sec, [])
+
+/-- **Header round trip.** For every section name over `isalnum`/`-`/`.` (no `.` without a subsection) and
+every subsection without LF/NUL in which no `#`/`;` follows an odd number of `"` (`wfSubsection`), the
+header line `write_to_file` emits is parsed back to the same `(name[, subsection])` with nothing left
+on the line: `_strip_comments` leaves it alone, the scan finds the final `]`, the split finds the name,
+and unescaping inverts escaping. -/
+theorem header_roundtrip_partial (sec : Section) (hdr : Bytes) (h : wfSection sec = true)
+    (hw : writeHeader sec = .ok hdr) : parseHeader hdr = .ok (sec, []) := by
+  obtain ⟨name, sub⟩ := sec
+  cases sub with
+  | none =>
+    simp only [wfSection, Bool.and_eq_true, Bool.not_eq_true'] at h
+    simp only [writeHeader, Except.ok.injEq] at hw
+    subst hw
+    have hd : ¬ 46 ∈ name := by simpa [Gen.Config.hdrDot] using h.2
+    exact parseHeader_written_plain name h.1 hd
+  | some sub =>
+    simp only [wfSection, wfSubsection, Bool.and_eq_true, Bool.not_eq_true'] at h
+    simp only [writeHeader] at hw
+    split at hw
+    · cases hw
+    · rename_i esc hesc
+      simp only [Except.ok.injEq] at hw
+      subst hw
+      obtain ⟨he, _, _⟩ := escapeSubsection_ok hesc
+      subst he
+      exact parseHeader_written_sub name sub h.1 h.2.2
+
+example : wfSection ([114, 101, 109, 111, 116, 101], some [97, 35, 59, 34, 92, 46, 32, 93, 34, 35]) = true := by decide
+
+/-- `(s, a"#b)` is written as `[s "a\"#b"]` and cannot be read back: `_strip_comments` is blind to the
+backslash, sees the string end at the escaped quote and cuts the line at `#`. -/
+theorem header_counterexample :
+    writeHeader ([115], some [97, 34, 35, 98]) = .ok [91, 115, 32, 34, 97, 92, 34, 35, 98, 34, 93, 10] ∧
+    parseHeader [91, 115, 32, 34, 97, 92, 34, 35, 98, 34, 93, 10] = .error .format := by decide
+
+theorem headerRoundtripStatement_false : ¬ headerRoundtripStatement := by
+  intro h
+  have := h ([115], some [97, 34, 35, 98]) _ (by decide) (by intro h; cases h) header_counterexample.1
+  rw [header_counterexample.2] at this
+  cases this
+
+/-- `[a.b]` is the legacy spelling of section `a`, subsection `b` (git reads it the same way), so a
+one-element section key containing `.` does not come back as such -/
+theorem dotted_section_reads_as_subsection :
+    parseHeader [91, 97, 46, 98, 93, 10] = .ok (([97], some [98]), []) := by decide
+
+/-! ## 3. the multi-valued dictionary: `set`/`add`/`remove` refine the association-list spec -/
+
+/-- `add` appends: multi-valued keys keep their order -/
+theorem getAll_add (d : Entries) (k v k' : Bytes) :
+    entGetAll (entAdd d k v) k' = if sameKey k k' then entGetAll d k' ++ [v] else entGetAll d k' := by
+  unfold entGetAll entAdd
+  by_cases h : sameKey k k' = true <;> simp [List.filter_append, List.filter_cons, h]
+
+/-- `set` replaces every value of the key (case-insensitively) by the one new value, others untouched -/
+theorem getAll_set (d : Entries) (k v k' : Bytes) :
+    entGetAll (entSet d k v) k' = if sameKey k k' then [v] else entGetAll d k' := by
+  unfold entGetAll entSet
+  by_cases h : sameKey k k' = true
+  · simp only [List.filter_append, List.filter_filter, h, if_true, List.map_append]
+    have : d.filter (fun e => sameKey e.1 k' && !sameKey e.1 k) = [] := by
+      rw [List.filter_eq_nil_iff]
+      intro e _
+      simp only [sameKey, beq_iff_eq] at h ⊢
+      simp [h]
+    simp [this, List.filter_cons, h]
+  · have h' : sameKey k k' = false := by simpa using h
+    simp only [List.filter_append, List.filter_filter, h', Bool.false_eq_true, if_false, List.map_append]
+    have : d.filter (fun e => sameKey e.1 k' && !sameKey e.1 k) = d.filter (fun e => sameKey e.1 k') := by
+      apply List.filter_congr
+      intro e _
+      cases h1 : sameKey e.1 k' with
+      | false => rfl
+      | true =>
+        cases h2 : sameKey e.1 k with
+        | false => rfl
+        | true =>
+          exfalso
+          simp only [sameKey, beq_iff_eq] at h1 h2
+          simp [sameKey, ← h1, ← h2] at h'
+    simp [this, List.filter_cons, h']
+
+/-- `remove` deletes every value of the key, others untouched -/
+theorem getAll_del (d d' : Entries) (k k' : Bytes) (h : entDel d k = .ok d') :
+    entGetAll d' k' = if sameKey k k' then [] else entGetAll d k' := by
+  unfold entDel at h
+  split at h
+  · simp only [Except.ok.injEq] at h
+    subst h
+    have := getAll_set d k [] k'
+    unfold entGetAll entSet at this
+    unfold entGetAll
+    by_cases hk : sameKey k k' = true
+    · simp only [hk, if_true] at this ⊢
+      simpa [List.filter_append, List.filter_cons, hk] using this
+    · have hk' : sameKey k k' = false := by simpa using hk
+      simp only [hk', Bool.false_eq_true, if_false] at this ⊢
+      simpa [List.filter_append, List.filter_cons, hk'] using this
+  · cases h
+
+/-- `d[k]` is the last value stored -/
+theorem get_eq_last (d : Entries) (k : Bytes) : entGet d k = (entGetAll d k).getLast? := rfl
+
+example : entGetAll (entAdd (entAdd (entSet [([107], [48])] [75] [49]) [107] [50]) [120] [51]) [75] = [[49], [50]] := by
+  decide
+
 end Dulwich.Props.C20
